@@ -153,6 +153,15 @@ func (ec *evalCtx) callWith(call *ast.CallExpr, recv Value, args []Value) Value 
 		if ic := ec.e().ifaceContract(fn); ic != nil {
 			return ec.applyContract(ic, fn, call, recv, args, sig)
 		}
+		// a concrete method without a contract of its own whose shape is that of an interface method under contract
+		// (parse.Parser.Parse): the interface contract is assumed for it
+		if ic := ec.e().cs.Contracts["github.com/a-h/parse.Parser.Parse"]; ic != nil && ic.Iface && fn.Name() == "Parse" {
+			if fs, ok := fn.Type().(*types.Signature); ok && fs.Recv() != nil && fs.Params().Len() == 1 && fs.Results().Len() == 3 &&
+				types.TypeString(fs.Params().At(0).Type(), nil) == "*github.com/a-h/parse.Input" && isErrorType(fs.Results().At(2).Type()) {
+				ec.e().trusted["methods with the shape of parse.Parser.Parse are assumed to satisfy its interface contract ("+fn.FullName()+")"] = true
+				return ec.applyContract(ic, fn, call, recv, args, sig)
+			}
+		}
 	} else if fv, ok := ec.eval(call.Fun).(*FuncV); ok && (fv.Lit != nil || fv.AltC != nil) {
 		return ec.callClosure(fv, call, args)
 	} else if ok && len(fv.Cands) > 0 {
